@@ -263,6 +263,18 @@ def run(ctx):
 
         # ---- 2. reports: write, read back
         reports = [gen_report(rng, small=(i % 3 == 0)) for i in range(ctx.pick(300, 5000))]
+        # tiny reports: one group with one path /<s>, the argument <s> and the base dir /<s>, for every string s of <= 2 symbols
+        tiny0 = gen_report(rng, small=True)
+        for sidx, sx in enumerate(t.strings_upto(2)):
+            comp = sx.replace(b"/", b"_")
+            if comp == b".":
+                continue
+            r1 = dict(tiny0)
+            r1["groups"] = [(b"\x49\x16", 41, [b"/" + comp])]
+            r1["cmd"] = [sx]
+            r1["base"] = b"/" + comp
+            r1["stats"] = [1, 1, 41, 0, 0, 0, 0]
+            reports.append(r1)
         tables = human_tables(reports)
         for tab in tables:
             for n, b in tab.items():
@@ -382,8 +394,7 @@ def run(ctx):
             ctx.bump("mutant_result", res.split()[0] + ("/" + res.rsplit("end=", 1)[1] if "end=" in res else ""))
 
     # ---- report
-    for kind, what, payload in oracle[:1] if oracle else []:
-        pass
+    oracle.sort(key=lambda o: len(json.dumps(o[2], default=str)))      # smallest failing case of each kind first
     seen_kinds = set()
     for kind, what, payload in oracle:
         if kind in seen_kinds:
